@@ -277,6 +277,33 @@ func runC18(c *Check) {
 			c.Decide("C18-R4", "LoadGenesis ⟂ validates", fnName(lg), p.InstrPos(validOK[0].In), "a genesis is returned only after Validate accepted it",
 				"LoadGenesis can return a genesis without a successful Validate", g, g.PathAvoiding([]*Node{g.Entry}, nodeSet(succ), nodeSet(validOK)))
 		}
+		// what is validated and returned is what the file says: the decoded value is not patched
+		// up (defaults filled in) before validation — a file that is invalid as written would
+		// be accepted, and the genesis loaded would differ from the one on disk
+		{
+			var patched []string
+			for _, b := range lg.Blocks {
+				for _, in := range b.Instrs {
+					st, ok := in.(*ssa.Store)
+					if !ok {
+						continue
+					}
+					fa, ok := st.Addr.(*ssa.FieldAddr)
+					if !ok {
+						continue
+					}
+					if strings.HasSuffix(fa.X.Type().String(), "genesis.Genesis") {
+						patched = append(patched, fieldLabel(fa.X.Type(), fa.Field)+" @"+p.InstrPos(in))
+					}
+				}
+			}
+			sort.Strings(patched)
+			if len(patched) == 0 {
+				c.OK("C18-R4", "LoadGenesis ⟂ validates-the-decoded-value-unmodified", fnName(lg), p.Pos(lg.Pos()), "no field of the decoded genesis is overwritten in the loader", true)
+			} else {
+				c.Bad("C18-R4", "LoadGenesis ⟂ validates-the-decoded-value-unmodified", fnName(lg), p.Pos(lg.Pos()), "the loader overwrites "+strings.Join(patched, ", ")+" of the decoded genesis: a file whose value for that field is invalid is accepted instead of refused, and the genesis loaded differs from the file", nil)
+			}
+		}
 	}
 	c.Doc("C18-R5", "CT: configuration and genesis files are written by replacing the whole file.")
 	ruleConfigWritersTruncate(c, p)
@@ -478,8 +505,14 @@ func fieldPath(t *Term) (string, string) {
 // an existing file (O_EXCL); otherwise saving a shorter configuration over a longer one leaves the
 // old tail behind and the file no longer loads back equal.
 func ruleConfigWritersTruncate(c *Check, p *Prog) {
-	rule := "C18-R5"
-	osPkg := p.byPkg[configPkg].Imports["os"]
+	ruleWritersReplaceWholeFile(c, p, "C18-R5", []string{configPkg, rootPath + "/pkg/genesis"}, 2,
+		"saving a configuration that serialises shorter than the file already on disk leaves the old tail behind; the file becomes malformed, Load ignores the read error and silently returns the defaults")
+}
+
+// ruleWritersReplaceWholeFile: every file opened for writing in the given packages replaces the
+// whole file (os.WriteFile, os.Create, or os.OpenFile with O_TRUNC or O_EXCL).
+func ruleWritersReplaceWholeFile(c *Check, p *Prog, rule string, pkgs []string, min int, consequence string) {
+	osPkg := p.byPkg[pkgs[0]].Imports["os"]
 	flag := func(name string) int64 {
 		if osPkg == nil {
 			return -1
@@ -493,7 +526,7 @@ func ruleConfigWritersTruncate(c *Check, p *Prog) {
 	}
 	oW, oRW, oT, oX := flag("O_WRONLY"), flag("O_RDWR"), flag("O_TRUNC"), flag("O_EXCL")
 	n := 0
-	for _, pkgPath := range []string{configPkg, rootPath + "/pkg/genesis"} {
+	for _, pkgPath := range pkgs {
 		for _, fn := range p.Funcs {
 			pk := fnPkg(fn)
 			if pk == nil || pk.Pkg.Path() != pkgPath {
@@ -523,15 +556,15 @@ func ruleConfigWritersTruncate(c *Check, p *Prog) {
 						if fl&oT != 0 || fl&oX != 0 {
 							c.OK(rule, fnShort(fn)+" ⟂ os.OpenFile", fnName(fn), p.InstrPos(in), "opened for writing with O_TRUNC or O_EXCL", true)
 						} else {
-							c.Bad(rule, fnShort(fn)+" ⟂ os.OpenFile", fnName(fn), p.InstrPos(in), fmt.Sprintf("the file is opened for writing without O_TRUNC/O_EXCL (flags %#x): saving a configuration that serialises shorter than the file already on disk leaves the old tail behind; the file becomes malformed, Load ignores the read error and silently returns the defaults", fl), nil)
+							c.Bad(rule, fnShort(fn)+" ⟂ os.OpenFile", fnName(fn), p.InstrPos(in), fmt.Sprintf("the file is opened for writing without O_TRUNC/O_EXCL (flags %#x): %s", fl, consequence), nil)
 						}
 					}
 				}
 			}
 		}
 	}
-	if n < 2 {
-		c.Unk(rule, "file-writers", "", "", fmt.Sprintf("anchor lost: %d file writers in pkg/config and pkg/genesis", n))
+	if n < min {
+		c.Unk(rule, "file-writers", "", "", fmt.Sprintf("anchor lost: %d file writers in %v", n, pkgs))
 	}
 }
 
